@@ -27,7 +27,7 @@ for c in "${checks[@]}"; do
   res[$c]="$rc"
   echo "$o" | grep -A2 -m3 '^VIOLATION' > "$out/.check_$c.txt"; echo "$o" | tail -1 >> "$out/.check_$c.txt"
 done
-git -C /repo worktree remove --force "$wt"; rm -rf "$wt" "$here/replays"
+git -C /repo worktree remove --force "$wt"; rm -rf "$wt"
 python3 - "$out" "$prop" "$v" "$clean_rc" "$pat_rc" "$suite" "$(for c in "${checks[@]}"; do echo -n "$c=${res[$c]} "; done)" <<'PY'
 import json, sys, os
 out, prop, v, clean_rc, pat_rc, suite, res = sys.argv[1:8]
